@@ -1382,8 +1382,7 @@ func (c *BytecodeCompiler) compileNode(node ast.Node, valueIsIgnored bool) expre
 	case *ast.AwaitExpressionNode:
 		c.compileAwaitExpressionNode(node)
 	case *ast.YieldExpressionNode:
-		c.compileYieldExpressionNode(node)
-		return expressionCompiledWithoutResult
+		return c.compileYieldExpressionNode(node, valueIsIgnored)
 	case *ast.VariablePatternDeclarationNode:
 		c.compileVariablePatternDeclarationNode(node)
 	case *ast.VariableDeclarationNode:
@@ -3853,7 +3852,7 @@ func (c *BytecodeCompiler) compileReturnExpressionNode(node *ast.ReturnExpressio
 	}
 }
 
-func (c *BytecodeCompiler) compileYieldExpressionNode(node *ast.YieldExpressionNode) {
+func (c *BytecodeCompiler) compileYieldExpressionNode(node *ast.YieldExpressionNode, valueIsIgnored bool) expressionResult {
 	location := node.Location()
 	if node.Value != nil {
 		c.emitYield(location, node.Value)
@@ -3861,6 +3860,14 @@ func (c *BytecodeCompiler) compileYieldExpressionNode(node *ast.YieldExpressionN
 		c.emit(location.StartPos.Line, bytecode.NIL)
 		c.emitYield(location, nil)
 	}
+
+	// YIELD consumes the yielded value and leaves nothing on the stack
+	// when the generator is resumed
+	if valueIsIgnored {
+		return expressionCompiledWithoutResult
+	}
+	c.emit(location.EndPos.Line, bytecode.NIL)
+	return expressionCompiled
 }
 
 func (c *BytecodeCompiler) compileNilSafeSubscriptExpressionNode(node *ast.NilSafeSubscriptExpressionNode) expressionResult {
